@@ -15,6 +15,8 @@ Monitors:
 
 from __future__ import annotations
 
+import copy
+
 from vlib import classgen as cg
 from vlib import driver as dr
 from vlib.core import safe_repr
@@ -30,13 +32,13 @@ RULE = (
     "construction; distinct by (operation kind, default style of the attribute, attribute type, class shape, preparer?)"
 )
 ASSUMPTIONS = [
-    "do_not_copy attributes are excluded (sharing is their declared behaviour)",
+    "do_not_copy attributes are excluded from the generated histories (copies share them by declaration); that independently constructed instances do not share their default is judged by directed cases",
     "a fresh instance is built with only the required key keyword; attributes passed as keywords are not compared",
 ]
 
 
 def GATES(tier):
-    return [("ops_judged", 500), ("isolation_checked", 300), ("resets_judged", 150), ("nested_direct_mutations", 50), ("constructed_with_UNCHANGED", 20)] + [
+    return [("ops_judged", 500), ("isolation_checked", 300), ("resets_judged", 150), ("nested_direct_mutations", 50), ("constructed_with_UNCHANGED", 20), ("dnc_default_cases", 8)] + [
         (f"default_style:{s}", 5) for s in ("lit", "attr", "factory", "field", "field_factory", "none", "plain_override", "spec_redefault", "spec_redeclare")
     ]
 
@@ -110,7 +112,76 @@ def check_reset(ctx, world, insts, inst, cname, attrs_reset, op, history, case):
             ctx.violation("reset_restores_fresh_default", f"after {dr.op_src(op)} on a {cname}: {what}", features=feats, case=case, history=dr.describe_history(history), source=world.source[-1500:])
 
 
+DNC_SRC = """
+from typing import Dict, List
+from spec_classes import spec_class, Attr
+
+@spec_class(do_not_copy=["listed"], bootstrap={boot})
+class ByList:
+    n: int = 0
+    listed: List[int] = [1, 2]
+
+@spec_class(bootstrap={boot})
+class ByAttr:
+    n: int = 0
+    listed: Dict[str, int] = Attr(default={{"a": 1}}, do_not_copy=True)
+
+@spec_class(do_not_copy=True, bootstrap={boot})
+class Whole:
+    n: int = 0
+    listed: List[int] = [1, 2]
+
+class PlainSub(ByList):
+    pass
+"""
+
+
+def directed_dnc_defaults(ctx):
+    """do_not_copy says how *copies of an instance* carry the attribute; it does not make independently constructed
+    instances share the class's default: each gets a value of its own, and a reset yields a fresh one."""
+    for boot in (True, False):
+        ns = cg.exec_module(DNC_SRC.format(boot=boot), prefix="verif_c08d").__dict__
+        for cname in ("ByList", "ByAttr", "Whole", "PlainSub"):
+            cls = ns[cname]
+            ctx.count("ops_judged")
+            ctx.count("dnc_default_cases")
+            feats = {"hkind": "dnc_default", "cls": cname, "lazy": not boot}
+
+            def edit(v):
+                if isinstance(v, list):
+                    v.append(99)
+                else:
+                    v["zz"] = 99
+
+            problems = []
+            try:
+                a, b = cls(), cls()
+                pristine = copy.deepcopy(b.listed)
+                edit(a.listed)
+                if b.listed != pristine:
+                    problems.append(f"editing a.listed in place changed an independently constructed peer: {b.listed!r}")
+                c = cls()
+                if c.listed != pristine:
+                    problems.append(f"... and a later instance starts from {c.listed!r}, not from the declared default {pristine!r}")
+                if "listed" in cls.__dict__ and cls.__dict__["listed"] != pristine:
+                    problems.append(f"... and the class-level default is now {cls.__dict__['listed']!r}")
+                a.reset_listed(_inplace=True)
+                if a.listed != pristine:
+                    problems.append(f"reset_listed(_inplace=True) restored {a.listed!r}, a new instance holds {pristine!r}")
+                edit(a.listed)
+                d = cls()
+                if d.listed != pristine or b.listed != pristine:
+                    problems.append(f"the value restored by reset is shared: after editing it a new instance holds {d.listed!r}, the peer {b.listed!r}")
+            except Exception as e:
+                problems.append(f"{type(e).__name__}: {e}")
+            ctx.sig("dnc_default", cname, boot, not problems)
+            if problems:
+                ctx.violation("mutation_isolated", f"[directed] {cname} (do_not_copy attribute with a mutable literal default, bootstrap={boot}): {problems[:3]}", features=feats, case=["dnc_default", cname, boot])
+
+
 def run(ctx, params):
+    if params.get("directed"):
+        return directed_dnc_defaults(ctx)
     rng = ctx.rng
     import checks.c02 as c02
 
@@ -200,5 +271,5 @@ def run(ctx, params):
 
 def plan(tier, seed):
     if tier == "quick":
-        return [{"shard": i, "cases": 50, "ops_per_case": 14} for i in range(16)]
-    return [{"shard": i, "cases": 1000, "ops_per_case": 16} for i in range(32)]
+        return [{"directed": True}] + [{"shard": i, "cases": 50, "ops_per_case": 14} for i in range(16)]
+    return [{"directed": True}] + [{"shard": i, "cases": 1000, "ops_per_case": 16} for i in range(32)]
